@@ -435,6 +435,99 @@ def measure_master(points):
     return res
 
 
+def measure_failures(points):
+    """Runs that FAIL (inside a context processor's logic, inside an operation, at parameter resolution), each carrying a
+    marker object in its context, on fresh and on reused Pipeline objects.  Sampled after `points` failed runs: live marker
+    objects and live ContextType instances (the run's context must not outlive the failed run)."""
+    from harness.lib import pipegen as pg
+    pg.setup_impl()
+    from harness.lib import components as HC
+    from semantiva.context_processors import ContextType
+    from semantiva.pipeline import Payload, Pipeline
+    from semantiva.logger import Logger
+    lg = Logger(level="CRITICAL", console_output=False)
+    kinds = {
+        "context-processor-raises": [{"processor": "FloatValueDataSource", "parameters": {"value": 1.0}}, {"processor": HC.VerifFailingContextProcessor}],
+        "operation-raises": [{"processor": "FloatValueDataSource", "parameters": {"value": 1.0}}, {"processor": "FloatDivideOperation", "parameters": {"divisor": 0.0}}],
+        "unresolved-parameter": [{"processor": "FloatValueDataSource", "parameters": {"value": 1.0}}, {"processor": "FloatMultiplyOperation"}],
+    }
+    res = {"samples": {}, "status": "ok"}
+    try:
+        for kname, cfg in kinds.items():
+            for way in ("fresh", "reused"):
+                reused = Pipeline([dict(c) for c in cfg], logger=lg) if way == "reused" else None
+                done, failed = 0, 0
+                for p in sorted(points):
+                    for _ in range(p - done):
+                        pipe = reused or Pipeline([dict(c) for c in cfg], logger=lg)
+                        try:
+                            pipe.process(Payload(None, ContextType({"marker": HC.VerifRunMarker()})))
+                        except Exception:  # noqa
+                            failed += 1
+                        del pipe
+                    done = p
+                    gc.collect()
+                    live = {"markers": 0, "contexts": 0}
+                    # what sits in a reused Pipeline's transport queue is the known residue F-C18-b (one published message per node
+                    # per run, each holding its payload): accounted there, not here
+                    qs = getattr(getattr(reused, "transport", None), "_queues", None) if reused is not None else None
+                    accounted = _reachable([qs]) if qs is not None else set()
+                    for o in gc.get_objects():
+                        try:
+                            if id(o) in accounted:
+                                continue
+                            if isinstance(o, HC.VerifRunMarker):
+                                live["markers"] += 1
+                            elif isinstance(o, ContextType):
+                                live["contexts"] += 1
+                        except Exception:  # noqa
+                            pass
+                    res["samples"]["%s|%s|%d" % (kname, way, p)] = dict(live, failed=failed)
+    except Exception as ex:  # noqa
+        import traceback
+        res["status"] = "exception %s: %s" % (type(ex).__name__, str(ex)[:300])
+        res["tb"] = traceback.format_exc()[-1200:]
+    return res
+
+
+if __name__ == "__main__" and "--measure-failures" in sys.argv:
+    import logging
+    logging.disable(logging.CRITICAL)
+    _real = sys.stdout
+    sys.stdout = sys.stderr
+    _out = measure_failures(json.load(sys.stdin))
+    sys.stdout = _real
+    sys.stdout.write(json.dumps(_out))
+    sys.exit(0)
+
+
+def failures_oracle(ck, thorough):
+    """C18, failing runs: what a failed run was given must not stay alive after it."""
+    pts = [5, 25, 75] if thorough else [4, 12, 36]
+    r, err = core.run_impl("props/c18.py", args=["--measure-failures"], input_obj=pts, timeout=400)
+    if r is None:
+        ck.corr_problem("failing-runs measurement did not complete", str(err)[-1200:])
+        return None
+    if r.get("status") != "ok":
+        ck.corr_problem("failing-runs measurement failed: %s" % r.get("status"), r.get("tb", ""))
+        return r
+    a, b = pts[-2], pts[-1]
+    out = {}
+    for key in sorted({k.rsplit("|", 1)[0] for k in r["samples"]}):
+        sa, sb = r["samples"]["%s|%d" % (key, a)], r["samples"]["%s|%d" % (key, b)]
+        out[key] = [sa, sb]
+        if sb["failed"] != b:
+            ck.corr_problem("failing-runs measurement: %s: %d of %d runs failed (all were expected to)" % (key, sb["failed"], b), "")
+            continue
+        for what in ("markers", "contexts"):
+            if sb[what] - sa[what] >= max(3, (b - a) // 4):
+                kname, way = key.split("|")
+                ck.fail_input("C18:failed-runs-leave-%s-alive:%s:%s" % (what, kname, way),
+                              "objects of FAILED runs stay alive (%s, %s Pipeline): %d live %s after %d failed runs, %d after %d"
+                              % (kname, way, sa[what], what, a, sb[what], b), {"kind": "failing-runs", "case": key, "points": pts})
+    return out
+
+
 def measure_launches(points):
     """A long-lived program that launches `semantiva run` in-process again and again, each launch with its own captured
     stdout/stderr (what a service, a notebook or a test runner does).  Sampled after `points` launches."""
@@ -692,6 +785,9 @@ CORE = [
                                             {"k": "delete", "a": "j"}, {"k": "sink"}], {}),
     ("payload source and sinks, parameter from context", [{"k": "psrc"}, {"k": "mul"}, {"k": "psink"}, {"k": "sink0"}], {"factor": 2}),
     ("class-object processor", [{"k": "src", "cfg": {"value": 1}}, {"k": "ctxwrite", "key": "k"}, {"k": "probe", "ckey": "j"}], {}),
+    ("processors spelled package.module:Class", [{"k": "src", "cfg": {"value": 2}, "proc_name": "semantiva.examples.test_utils:FloatValueDataSource"},
+                                                 {"k": "mul", "cfg": {"factor": 3}, "proc_name": "semantiva.examples.test_utils:FloatMultiplyOperation"},
+                                                 {"k": "probe", "ckey": "k", "proc_name": "semantiva.examples.test_utils:FloatCollectValueProbe"}], {}),
 ]
 TRACED = {0: ["reused", "fresh", "runspace"], 3: ["reused", "runspace"], 5: ["reused", "runspace"]}   # CORE index -> ways also measured traced
 
@@ -848,6 +944,7 @@ def run(ck):
             smp_.pop("census", None)          # large; the oracle has judged it
             smp_.pop("containers", None)
     ck.notes["repeated_launches"] = launches_oracle(ck, thorough)
+    ck.notes["failing_runs"] = failures_oracle(ck, thorough)
     facts = None
     try:
         from harness.translate import registry as tr
